@@ -4,7 +4,7 @@ from engine.facts import strip_tmpl
 
 LEVEL = "other"
 MIN_OBLIGATIONS = 12
-TECHNIQUE = "finite-table extraction (switch -> literal map evaluated for all 25 type x threshold pairs) + two-path CFG rules for the stateful filters and the counter; adapter rule on Filter::process (returns exactly filter(lmsg), evaluated on every path); builder-fidelity rule on the SimplePipeline filter builders (three-valued); no ordering of message types by enumerator value anywhere in the library; Pipeline::process invokes handlers from one place; LogMessage keeps the text it is given"
+TECHNIQUE = "finite-table extraction (switch -> literal map evaluated for all 25 type x threshold pairs) + two-path CFG rules for the stateful filters and the counter; adapter rule on Filter::process (returns exactly filter(lmsg), evaluated on every path); builder-fidelity rule on the SimplePipeline filter builders (three-valued); no ordering of message types by enumerator value anywhere in the library; Pipeline::process invokes handlers from one place; LogMessage keeps the text it is given; copies of a message keep its text (copy constructor: same member or pointer + length); Logger::processMessage runs the handlers for every message"
 LEVEL_TEXT = ("The four mechanisms are finite tables or two-state automata, so deciding their code decides every message sequence: the severity table is extracted "
               "and all 25 (type, threshold) verdicts are evaluated on it; the duplicate filter's two paths (equal -> drop without write, different -> remember then pass), "
               "the regexp filter's return expression and the counter's single unconditional unit increment are checked on every path.")
